@@ -57,6 +57,26 @@ func init() {
 			{Name: "agent trims a different prefix", ExpectRule: "C20.R4", Edits: []Edit{
 				{File: agt, Old: "\t\t\t\tkey := strings.TrimPrefix(destAddr, protocol.ForwardStreamPrefix)\n", New: "\t\t\t\tkey := strings.TrimPrefix(destAddr, \"forward\")\n"},
 			}},
+			{Name: "target carried to the dial through a table keyed by the stream id", ExpectRule: "C20.R1", ExpectKey: "address", Edits: []Edit{
+				{File: fwh, Old: "\ttargets map[string]string // routing key -> target\n", New: "\ttargets map[string]string // routing key -> target\n\tpendingTargets map[uint64]string\n"},
+				{File: fwh, Old: "\t\ttargets:     targets,\n", New: "\t\ttargets:     targets,\n\t\tpendingTargets: make(map[uint64]string),\n"},
+				{File: fwh, Old: "\tgo h.handleStreamOpenAsync(ctx, streamID, requestID, remoteID, key, target, remoteEphemeralPub)\n", New: "\th.mu.Lock()\n\th.pendingTargets[streamID] = target\n\th.mu.Unlock()\n\tgo h.handleStreamOpenAsync(ctx, streamID, requestID, remoteID, key, target, remoteEphemeralPub)\n"},
+				{File: fwh, Old: "\t// Connect to target\n\tdialer := &net.Dialer{Timeout: h.cfg.ConnectTimeout}\n", New: "\th.mu.RLock()\n\ttarget = h.pendingTargets[streamID]\n\th.mu.RUnlock()\n\t// Connect to target\n\tdialer := &net.Dialer{Timeout: h.cfg.ConnectTimeout}\n"},
+			}},
+			{Name: "a resolver callback is consulted instead of the configured table", ExpectRule: "C20.R1", ExpectKey: "address", Edits: []Edit{
+				{File: fwh, Old: "\tLogger *slog.Logger\n}", New: "\tLogger *slog.Logger\n\n\tResolve func(key string) (string, bool)\n}"},
+				{File: fwh, Old: "func (h *Handler) GetTarget(key string) (string, bool) {\n", New: "func (h *Handler) GetTarget(key string) (string, bool) {\n\tif h.cfg.Resolve != nil {\n\t\treturn h.cfg.Resolve(key)\n\t}\n"},
+				{File: fwh, Old: "\ttarget, ok := h.targets[key]\n\tif !ok {", New: "\ttarget, ok := h.GetTarget(key)\n\tif !ok {"},
+			}},
+			{Name: "unknown key falls back to a default endpoint", ExpectRule: "C20.R1", ExpectKey: "lookup key", Edits: []Edit{
+				{File: fwh, Old: "\ttarget, ok := h.targets[key]\n\tif !ok {", New: "\ttarget, ok := h.targets[key]\n\tif !ok {\n\t\ttarget, ok = h.targets[\"default\"]\n\t}\n\tif !ok {"},
+			}},
+			{Name: "target rewritten after the lookup", ExpectRule: "C20.R1", ExpectKey: "address", Edits: []Edit{
+				{File: fwh, Old: "\tconn, err := dialer.DialContext(ctx, \"tcp\", target)", New: "\tconn, err := dialer.DialContext(ctx, \"tcp\", strings.Replace(target, \"{key}\", key, 1))"},
+			}},
+			{Name: "agent takes the key after the last occurrence of the prefix", ExpectRule: "C20.R4", Edits: []Edit{
+				{File: agt, Old: "\t\t\t\tkey := strings.TrimPrefix(destAddr, protocol.ForwardStreamPrefix)\n", New: "\t\t\t\tkey := destAddr[strings.LastIndex(destAddr, protocol.ForwardStreamPrefix)+len(protocol.ForwardStreamPrefix):]\n"},
+			}},
 			// rewrites
 			{Name: "rewrite: positive ok test", Edits: []Edit{
 				{File: fwh, Old: "\ttarget, ok := h.targets[key]\n\tif !ok {\n\t\th.sendOpenErr(remoteID, streamID, requestID, protocol.ErrForwardNotFound, \"forward key not found\")\n\t\treturn fmt.Errorf(\"forward key not found: %s\", key)\n\t}\n\n\t// Perform the rest asynchronously to avoid blocking the frame processing loop.\n\tgo h.handleStreamOpenAsync(ctx, streamID, requestID, remoteID, key, target, remoteEphemeralPub)\n\n\treturn nil\n", New: "\tif target, ok := h.targets[key]; ok {\n\t\tgo h.handleStreamOpenAsync(ctx, streamID, requestID, remoteID, key, target, remoteEphemeralPub)\n\t\treturn nil\n\t}\n\th.sendOpenErr(remoteID, streamID, requestID, protocol.ErrForwardNotFound, \"forward key not found\")\n\treturn fmt.Errorf(\"forward key not found: %s\", key)\n"},
